@@ -290,7 +290,8 @@ MANIFEST = {
             "(symbolic; QF_LRA) and all four basis pairs the assembled operator equals the "
             "Cardinal operator composed with the basis matrices and the source is identical, so "
             "the solution is the same phase-space function up to the dense solve. (c) "
-            "setBackground deep-copies and boosts (wall velocity -> -velocityMid).",
+            "setBackground deep-copies and boosts (wall velocity -> -velocityMid)."
+            " getBoltzmannFiniteDifference builds a Cardinal-basis twin with the same operator and leaves the spectral solver (collision data, basis labels, settings) untouched.",
     "note": "needs the WALLGO_VERIF hook (derivative arrays); linear solve, f_eq' and "
             "non-polynomial convergence are outside.",
 }
